@@ -88,6 +88,14 @@ func buildVC(prog *Program, fi *FuncInfo) (vc *VC, err error) {
 			f.declareZero(st, r)
 		}
 	}
+	// axioms of the package (trusted)
+	for _, ax := range prog.Axioms[fi.Pkg.PkgPath] {
+		af := &Frame{vc: vc, pk: fi.Pkg, spec: true, bound: map[types.Object]Term{}, closures: map[types.Object]*ast.FuncLit{}}
+		rs := af.inline(st, fi.Pkg, ax, nil, nil, nil, true, ax.Pos())
+		if len(rs) == 1 {
+			vc.assumeGlobal(rs[0])
+		}
+	}
 	f.old = st.clone()
 	if sp != nil {
 		sf := &Frame{vc: vc, pk: sp.Pkg, spec: true, old: f.old, specEnv: f.specEnv, tsub: f.tsub, bound: map[types.Object]Term{}}
